@@ -80,6 +80,8 @@ static long g_live, g_live_bytes;
 static uintptr_t* g_free[NCLASS];
 static int g_nfree[NCLASS];
 static uintptr_t* g_adv_free; static int g_adv_nfree;
+#define NBIG 64
+static struct { uintptr_t a; uint32_t cap; } g_big[NBIG]; static int g_nbig;   /* freed blocks above the class range */
 
 static void die(const char* m) { (void)!write(2, m, strlen(m)); _exit(2); }
 
@@ -177,8 +179,14 @@ static void* take_block(size_t n, int zero, int small_calloc) {
   }
   if (!a) {
     int cls = (int)(cap / 16);
+    int bigi = -1;
+    if (reuse_ok && cls >= NCLASS) for (int k = g_nbig - 1; k >= 0; k--) if (g_big[k].cap == cap) { bigi = k; break; }
     if (reuse_ok && cls < NCLASS && g_nfree[cls] > 0) {
       a = g_free[cls][--g_nfree[cls]];
+      arena_stats.reuses++;
+      b = led_find(a, 0);
+    } else if (bigi >= 0) {
+      a = g_big[bigi].a; g_big[bigi] = g_big[--g_nbig];
       arena_stats.reuses++;
       b = led_find(a, 0);
     } else {
@@ -212,7 +220,8 @@ static void release_block(Blk* b) {
   if (g_place == PLACE_QUARANTINE || g_place == PLACE_BUMP) return;
   if (b->adv) { if (g_adv_nfree < FREESTACK) g_adv_free[g_adv_nfree++] = a; return; }
   int cls = (int)(b->cap / 16);
-  if (cls < NCLASS && g_nfree[cls] < FREESTACK) g_free[cls][g_nfree[cls]++] = a;
+  if (cls < NCLASS) { if (g_nfree[cls] < FREESTACK) g_free[cls][g_nfree[cls]++] = a; }
+  else if (g_nbig < NBIG) { g_big[g_nbig].a = a; g_big[g_nbig].cap = b->cap; g_nbig++; }
 }
 
 static int fail_now(void) {
